@@ -135,48 +135,58 @@ func c07RecsOf(rrs []dnsmessage.RR) string {
 
 func c07RunOne(b *c07Behaviour, rng *rand.Rand, res *verifutil.Result) {
 	text := verifutil.C07Render(&b.Cfg)
-	sections, err := config_parser.Parse(text)
-	if err != nil {
-		res.Failf("c07:build:"+text, text, "a well-formed dns section was refused by the parser: %v\n%s", err, text)
-		return
-	}
-	conf, err := config.New(sections)
-	if err != nil {
-		res.Failf("c07:build:"+text, text, "a well-formed dns section was refused: %v\n%s", err, text)
-		return
-	}
 	log := logrus.New()
 	log.SetOutput(io.Discard)
-	routing, err := componentdns.New(&conf.Dns, &componentdns.NewOption{
-		Logger:                  log,
-		LocationFinder:          assets.NewLocationFinder(nil),
-		UpstreamReadyCallback:   func(*componentdns.Upstream) error { return nil },
-		UpstreamResolverNetwork: "udp",
-	})
-	if err != nil {
-		res.Failf("c07:build:"+text, text, "a well-formed dns section was refused by dns.New: %v\n%s", err, text)
-		return
+	// one configuration generation: dns.New + a DnsController (the URLs behind the declarations may be exchanged by a reload)
+	build := func(urls map[string]string) (*componentdns.Dns, *DnsController, bool) {
+		t := verifutil.C07RenderUrls(&b.Cfg, urls)
+		sections, err := config_parser.Parse(t)
+		if err != nil {
+			res.Failf("c07:build:"+t, t, "a well-formed dns section was refused by the parser: %v\n%s", err, t)
+			return nil, nil, false
+		}
+		conf, err := config.New(sections)
+		if err != nil {
+			res.Failf("c07:build:"+t, t, "a well-formed dns section was refused: %v\n%s", err, t)
+			return nil, nil, false
+		}
+		routing, err := componentdns.New(&conf.Dns, &componentdns.NewOption{
+			Logger:                  log,
+			LocationFinder:          assets.NewLocationFinder(nil),
+			UpstreamReadyCallback:   func(*componentdns.Upstream) error { return nil },
+			UpstreamResolverNetwork: "udp",
+		})
+		if err != nil {
+			res.Failf("c07:build:"+t, t, "a well-formed dns section was refused by dns.New: %v\n%s", err, t)
+			return nil, nil, false
+		}
+		ctrl, err := NewDnsController(routing, &DnsControllerOption{
+			Log:                 log,
+			LifecycleContext:    context.Background(),
+			CacheAccessCallback: func(*DnsCache) error { return nil },
+			CacheRemoveCallback: func(*DnsCache) error { return nil },
+			NewCache: func(fqdn string, answers, ns, extra []dnsmessage.RR, deadline, originalDeadline time.Time) (*DnsCache, error) {
+				return &DnsCache{DomainBitmap: make([]uint32, 32), Answer: answers, NS: ns, Extra: extra, Deadline: deadline, OriginalDeadline: originalDeadline}, nil
+			},
+		})
+		if err != nil {
+			res.Note("NewDnsController: " + err.Error())
+			return nil, nil, false
+		}
+		rt := *ctrl.runtime()
+		rt.bestDialerChooser = func(ctx context.Context, req *udpRequest, upstream *componentdns.Upstream) (*dialArgument, error) {
+			tgt := netip.AddrPortFrom(upstream.Ip46.Ip4, upstream.Port)
+			return &dialArgument{l4proto: consts.L4ProtoStr_UDP, ipversion: consts.IpVersionStr_4, bestTarget: tgt}, nil
+		}
+		ctrl.runtimeState.Store(&rt)
+		return routing, ctrl, true
 	}
-	ctrl, err := NewDnsController(routing, &DnsControllerOption{
-		Log:                 log,
-		LifecycleContext:    context.Background(),
-		CacheAccessCallback: func(*DnsCache) error { return nil },
-		CacheRemoveCallback: func(*DnsCache) error { return nil },
-		NewCache: func(fqdn string, answers, ns, extra []dnsmessage.RR, deadline, originalDeadline time.Time) (*DnsCache, error) {
-			return &DnsCache{DomainBitmap: make([]uint32, 32), Answer: answers, NS: ns, Extra: extra, Deadline: deadline, OriginalDeadline: originalDeadline}, nil
-		},
-	})
-	if err != nil {
-		res.Note("NewDnsController: " + err.Error())
+	routing, ctrl, ok := build(verifutil.C07Urls)
+	if !ok {
 		return
 	}
 	defer func() { _ = ctrl.Close() }()
-	rt := *ctrl.runtime()
-	rt.bestDialerChooser = func(ctx context.Context, req *udpRequest, upstream *componentdns.Upstream) (*dialArgument, error) {
-		tgt := netip.AddrPortFrom(upstream.Ip46.Ip4, upstream.Port)
-		return &dialArgument{l4proto: consts.L4ProtoStr_UDP, ipversion: consts.IpVersionStr_4, bestTarget: tgt}, nil
-	}
-	ctrl.runtimeState.Store(&rt)
+	swapped := false
 
 	var mu sync.Mutex
 	var sends []string
@@ -214,6 +224,23 @@ func c07RunOne(b *c07Behaviour, rng *rand.Rand, res *verifutil.Result) {
 			realSrc:       netip.MustParseAddrPort("192.0.2.10:41000"),
 			realDst:       netip.MustParseAddrPort("192.0.2.1:53"), // the client's own resolver is the same server as u1 / u3
 			routingResult: &bpfRoutingResult{},
+		}
+		if st.Src == "reload" {
+			// a new generation: same declarations, the resolvers behind u1/u3 and u2 exchanged; the cache is carried over
+			trail[len(trail)-1] = "reload(upstream URLs exchanged)"
+			swapped = !swapped
+			urls := verifutil.C07Urls
+			if swapped {
+				urls = verifutil.C07SwappedUrls
+			}
+			r2, c2, ok := build(urls)
+			if !ok {
+				return
+			}
+			c2.RestoreReloadCache(ctrl.CloneCacheForReload(), nil, time.Now())
+			_ = ctrl.Close()
+			routing, ctrl = r2, c2
+			continue
 		}
 		baseKey := ctrl.cacheKey(name, verifutil.C07Qtypes[st.Q.Qtype])
 		if st.Src == "preload" {
